@@ -25,6 +25,9 @@ out   'start outside the support': the chain sits at a state whose log-density i
       initial point outside a bounded support / inside a NaN region); scripted proposals to further inadmissible points
       must never be accepted whatever u and whatever the current density; moves to admissible points may be accepted
       and must then leave state and carried density consistent.
+rep   'initial point representation': Python scalar/int, NumPy scalar, 0-d, length-1, list, tuple, ndarray, strided view,
+      CUQIarray, default, on targets of dimension 1 and > 1: every transition from the initial state consumes one normal
+      variate per component, the identified proposal is the documented one, and the acceptance oracle applies.
 stat  stationarity (second line): K independent chains started from exact draws of targets with a
       known law, k in {1,3} transitions, normal-score battery (KS, mean, second and cross moments),
       two-stage rule (p < 1e-7, then 4x sample, same statistic, same direction).
@@ -53,7 +56,8 @@ REQUIRED_COUNTERS = {
               "nan_inf_never_accepted_checked": 400, "reverse_direction_checked": 1600, "reload_equivalence_checked": 240,
               "chain_transitions_checked": 10000, "stationarity_tests": 12,
               "target_args_unchanged_checked": 50000, "forward_input_checked": 5000, "library_target_vs_reference_checked": 400,
-              "outside_start_bad_proposals_checked": 600, "outside_start_inward_proposals_checked": 200},
+              "outside_start_bad_proposals_checked": 600, "outside_start_inward_proposals_checked": 200,
+              "initial_point_rep_checked": 60, "initial_point_rep_noise_dim_checked": 600},
     # thorough floors are ~30 % of a complete run, so that a heavily shared machine (cases cut by the wall-clock budget)
     # still gives a verdict
     "thorough": {"proposal_maps_identified": 10000, "documented_proposal_checked": 4500, "threshold_accept_side": 15000,
@@ -61,7 +65,8 @@ REQUIRED_COUNTERS = {
                  "nan_inf_never_accepted_checked": 3000, "reverse_direction_checked": 6000, "reload_equivalence_checked": 900,
                  "chain_transitions_checked": 36000, "stationarity_tests": 30,
                  "target_args_unchanged_checked": 250000, "forward_input_checked": 30000, "library_target_vs_reference_checked": 1700,
-                 "outside_start_bad_proposals_checked": 2400, "outside_start_inward_proposals_checked": 800}}
+                 "outside_start_bad_proposals_checked": 2400, "outside_start_inward_proposals_checked": 800,
+                 "initial_point_rep_checked": 200, "initial_point_rep_noise_dim_checked": 2000}}
 BUDGET_S = {"quick": 240.0, "thorough": 2400.0}
 
 LEGACY_NAME = {"MH": "MH", "CWMH": "CWMH", "PCN": "pCN", "MALA": "MALA", "ULA": "ULA"}
@@ -223,8 +228,41 @@ def _out_cases(tier, seed):
     return out
 
 
+REPS = ["pyscalar", "pyint", "npfloat", "np0d", "len1", "list", "tuple", "ndarray", "view", "cuqiarray", "default"]
+REP_TARGETS = ["gauss", "logistic", "post_lin", "student", "lib_gauss", "banana"]
+
+
+def _rep_cases(tier, seed):
+    """'initial point representation': the same start handed over as Python scalar / int, NumPy scalar, 0-d array,
+    length-1 array, list, tuple, ndarray, strided view, CUQIarray or not at all, on targets of dimension 1 and > 1."""
+    reps_n = 1 if tier == "quick" else 5
+    out = []
+    for name in ("MH", "CWMH", "PCN", "MALA", "ULA"):
+        for iface in ("exp", "legacy"):
+            rng = core.rng_for(seed, PROPERTY, "rep", name, iface, tier)
+            k = 0
+            for rr in range(reps_n):
+                for rp in REPS:
+                    for dd in (1, 0):
+                        if dd == 1 and name == "CWMH":
+                            continue
+                        tgt = "post_lin" if name == "PCN" else REP_TARGETS[(k + seed) % len(REP_TARGETS)]
+                        k += 1
+                        d = 1 if dd == 1 else rng.choice([2, 3, 4])
+                        d = max(d, R.MIN_DIM.get(tgt, 1))
+                        c = {"kind": "rep", "sampler": name, "iface": iface, "target": tgt, "d": d, "rep": rp, "hist": "fresh",
+                             "state": "typ", "scale": rng.choice(["one", "mid", "mid", "small"]),
+                             "route": rng.choice(["step", "sample"]) if iface == "exp" else "sample2", "i": rr}
+                        if tgt.startswith("post"):
+                            c["pmean"] = rng.choice(["nonzero", "zero"]); c["pcov"] = rng.choice(["scalar", "vector", "matrix"])
+                        if tgt == "lib_gauss":
+                            c["gform"] = rng.choice(GAUSS_FORMS[:-1])
+                        out.append(c)
+    return out
+
+
 def cases(tier, seed):
-    rest = _chain_cases(tier, seed) + _thr_cases(tier, seed) + _out_cases(tier, seed)
+    rest = _chain_cases(tier, seed) + _thr_cases(tier, seed) + _out_cases(tier, seed) + _rep_cases(tier, seed)
     core.rng_for(seed, PROPERTY, "order", tier).shuffle(rest)     # a wall-clock cut must not fall on one sampler
     out = _stat_cases(tier, seed) + rest                          # the expensive stat cases first, spread over all shards
     flt = os.environ.get("VERIF_C02_FILTER")       # development only, e.g. "MALA:exp" (a filtered run cannot reach the coverage floors)
@@ -235,7 +273,7 @@ def cases(tier, seed):
 
 
 def _cfg(case, **extra):
-    keys = ("kind", "sampler", "iface", "target", "hist", "route", "pmean", "pcov", "grad_bad", "proposal", "mode", "start",
+    keys = ("kind", "sampler", "iface", "target", "hist", "route", "pmean", "pcov", "grad_bad", "proposal", "mode", "start", "rep",
             "geom", "pname", "pgeom", "gform")
     c = {k: case[k] for k in keys if k in case}
     c.update(extra)
@@ -425,10 +463,16 @@ class Env:
             _wrap(self.ctarget, rec)
         else:
             def lpf(x):
-                xx = _arr(x); rec.pts.append(xx)
+                xx = _arr(x)
+                if xx.size == 1 and d > 1:        # a scalar state stands for the vector with all components equal
+                    xx = np.full(d, xx[0])
+                rec.pts.append(xx)
                 return ref.lp(xx)
             def gf(x):
-                xx = _arr(x); rec.gpts.append(xx)
+                xx = _arr(x)
+                if xx.size == 1 and d > 1:
+                    xx = np.full(d, xx[0])
+                rec.gpts.append(xx)
                 return ref.grad(xx)
             self.ctarget = cuqi.distribution.UserDefinedDistribution(dim=d, logpdf_func=lpf, gradient_func=gf, name="x")
         if name == "MH" and case.get("proposal", "default") != "default":
@@ -506,6 +550,8 @@ def _zprov(z):
     def f(shape, api, seq):
         k = st["n"]; st["n"] += 1
         if k == 0 and z is not None:
+            if np.size(z) != int(np.prod(shape)):
+                return None          # the sampler asks for a different number of variates: pass through, flagged as unscripted
             return np.asarray(z, float).reshape(shape)
         return None
     return f
@@ -560,6 +606,10 @@ class Driver:
         self.env.rec.clear()
         return out
 
+    def _full(self, v):
+        """a scalar / length-1 state stands for the vector with all components equal."""
+        return np.full(self.d, v[0]) if (v.size == 1 and self.d > 1) else v
+
     def snapshot(self, s):
         return {k: copy.deepcopy(getattr(s, k)) for k in sorted(s._STATE_KEYS)}
 
@@ -567,7 +617,7 @@ class Driver:
         return np.array(s.scale, dtype=float)
 
     # ---- one transition from state x (None = the base state of sampler s)
-    def transition(self, s, x, z, us, route=None):
+    def transition(self, s, x, z, us, route=None, x0_obj=None):
         env, name = self.env, self.name
         route = route or ("step" if self.iface == "exp" else "single_update")
         o = Obs()
@@ -586,7 +636,7 @@ class Driver:
                     st["state"]["current_likelihood_logd"] = ev["lik"]
                 s.set_state(st)
             o.pre = self.snapshot(s)
-            o.x_prev = _arr(o.pre["current_point"])
+            o.x_prev = self._full(_arr(o.pre["current_point"]))
             env.rec.clear()
             with Scripted(normal=_zprov(z), uniform=_uprov(us)) as scr:
                 if route == "step":
@@ -595,7 +645,7 @@ class Driver:
                     s.sample(1)
                     acc = s._acc[-1]
             o.post = self.snapshot(s)
-            o.x_next = _arr(o.post["current_point"])
+            o.x_next = self._full(_arr(o.post["current_point"]))
             o.acc = np.array(acc, float).ravel()
             o.cache_pre = {k: o.pre[k] for k in ("current_target_logd", "current_target_grad", "current_likelihood_logd") if k in o.pre}
             o.cache_post = {k: o.post[k] for k in o.cache_pre}
@@ -630,7 +680,7 @@ class Driver:
                         o.cache_pre["current_target_grad"] = args_copy[1]
                         o.cache_post["current_target_grad"] = out[2]
             else:
-                s.x0 = x.copy()
+                s.x0 = x.copy() if x0_obj is None else x0_obj      # x0_obj: the caller's own representation of the initial point
                 env.rec.clear()
                 with Scripted(normal=_zprov(z), uniform=_uprov(us)) as scr:
                     try:
@@ -647,6 +697,7 @@ class Driver:
             o.sampler = s
         o.pts = [p.copy() for p in env.rec.pts]
         o.n_norm, o.n_unif = len(scr.normals()), len(scr.uniforms())
+        o.norm_size = sum(int(np.prod(dr[2])) if dr[2] != () else 1 for dr in scr.normals())
         o.norm_scripted = all(dr[4] for dr in scr.normals())
         env.rec.clear()
         return o
@@ -1427,6 +1478,104 @@ class Out(Thr):
             ctx.nontrivial("out:" + kind0) if n_in else ctx.nontrivial()
 
 
+# =========================================================================== initial point representation
+
+class Rep(Thr):
+    """The initial point is handed over in different representations.  Under the scripted stream (a) every transition from
+    the initial state must consume one standard-normal variate per component of the target (componentwise independent
+    noise) and the identified proposal must be the documented one at the broadcast state, (b) the acceptance oracle of
+    the thr cases applies unchanged.  A representation the library refuses (exception at construction or at the
+    first transition) is a refusal."""
+    CANONICAL = ("ndarray", "default")
+
+    def make_rep(self):
+        rs, d, rp = self.rs, self.d, self.case["rep"]
+        xv = self.start_point()
+        v = float(np.round(rs.uniform(-1.5, 1.5), 3))
+        if rp in ("pyscalar", "npfloat", "np0d", "len1", "pyint"):
+            if rp == "pyint":
+                v = float(rs.choice([-1, 0, 1, 2]))
+            full = np.full(d, v)
+            obj = {"pyscalar": v, "pyint": int(v), "npfloat": np.float64(v), "np0d": np.array(v), "len1": np.array([v])}[rp]
+        elif rp == "default":
+            full, obj = np.ones(d), None
+        else:
+            full = np.array(xv, float)
+            if rp == "list":
+                obj = [float(t) for t in full]
+            elif rp == "tuple":
+                obj = tuple(float(t) for t in full)
+            elif rp == "view":
+                big = np.full(2 * d + 1, -3.5); big[1::2] = full; obj = big[1::2]
+            elif rp == "cuqiarray":
+                obj = self.D.cuqi.array.CUQIarray(full.copy(), geometry=self.D.cuqi.geometry._DefaultGeometry1D(d))
+            else:
+                obj = full.copy()
+        return obj, full
+
+    def trans(self, x, z, us, route=None):
+        if x is self.x and self.iface == "legacy":
+            o = self.D.transition(self.s, x, z, us, "sample2", x0_obj=copy.deepcopy(self.obj) if self.obj is not None else x.copy())
+            self.env.report_side_effects(self.ctx, self.cfg, "transition")
+            if o.refused is None and (o.n_norm != 1 or o.n_unif != self.D.n_unif or not o.norm_scripted):
+                self.viol("unexpected_random_draws", f"transition consumed {o.n_norm} normal ({o.norm_size} variates) and {o.n_unif} "
+                          f"uniform draws, expected 1 ({self.d} variates) and {self.D.n_unif}")
+        else:
+            o = super().trans(x, z, us, route)
+        if x is self.x and o.refused is None:
+            self.ctx.count("initial_point_rep_noise_dim_checked")
+            if o.norm_size != self.d:
+                self.viol("proposal_noise_dimension", f"a transition from the initial state (given as {self.case['rep']}) of a {self.d}-dimensional "
+                          f"target consumed {o.norm_size} standard-normal variate(s); the documented proposal has componentwise independent noise")
+        return o
+
+    def run(self):
+        ctx, case, D, rs, env = self.ctx, self.case, self.D, self.rs, self.env
+        if not env.sanity(ctx, rs, self.name):
+            return
+        self.obj, full = self.make_rep()
+        if not np.isfinite(env.ref_cached(self.name, full)) or not np.isfinite(self.ref.lp(full)):
+            ctx.inconclusive("broadcast start is not admissible"); return
+        scale = env.scale_value(rs, self.name, case["scale"])
+        self.x = full
+        rp = case["rep"]
+        self.cfg = {**self.cfg, "dimclass": "1" if self.d == 1 else ">1"}
+        np.random.seed(int(rs.randint(2 ** 31 - 1)))
+        try:
+            self.s = D.make(copy.deepcopy(self.obj), scale, raw_x0=True)
+            if self.iface == "exp":
+                self.s.initialize()
+            env.rec.clear()
+            self.scale = D.scale_of(self.s)
+            first = self.trans(self.x, np.zeros(self.d), [TINY_U] * max(1, D.n_unif))
+        except (ValueError, TypeError, IndexError, AttributeError) as e:
+            if rp in self.CANONICAL:
+                raise
+            ctx.refused("initial_point_" + rp, e)
+            ctx.count("initial_point_rep_refused")
+            ctx.nontrivial("refused:" + rp)
+            env.rec.clear(); env.rec.changed.clear(); env.rec.fwd_bad.clear()
+            return
+        ctx.count("initial_point_rep_accepted")
+        if D.xstar(first) is None:
+            ctx.inconclusive("no evaluation trace"); return
+        idx = self.identify(self.x, full=True)
+        if idx is None:
+            ctx.inconclusive("proposal map not identified") if not ctx.violations else None
+            return
+        ax, Bx = idx
+        if self.name != "CWMH" and (abs(np.linalg.det(Bx)) == 0 or np.linalg.cond(Bx) > 1e10):
+            self.viol("proposal_degenerate", f"identified proposal factor is singular: {Bx.tolist()}"); return
+        self.check_documented(self.x, ax, Bx, f"initial state given as {rp}")
+        ctx.count("initial_point_rep_checked")
+        if self.name == "CWMH":
+            ctx.nontrivial()
+            return
+        for k, z in enumerate(self.pick_noises(self.x, ax, Bx)):
+            self.threshold(self.x, z, ax, Bx, f"rep {rp} probe{k}", route=case["route"])
+        ctx.nontrivial("rep:" + rp)
+
+
 # =========================================================================== chain cases (offline checker)
 
 def run_chain(case, ctx):
@@ -1735,6 +1884,8 @@ def run_case(case, ctx):
         Thr(case, ctx).run()
     elif case["kind"] == "out":
         Out(case, ctx).run()
+    elif case["kind"] == "rep":
+        Rep(case, ctx).run()
     elif case["kind"] == "chain":
         run_chain(case, ctx)
     else:
